@@ -4,7 +4,7 @@
    directives of our own. *)
 Require Extraction.
 Require Import ExtrOcamlBasic.
-From PF Require Import Opcodes RefTable Config Sim Ref Lex Envelope Oracles Check Entropy Mutators Gen Front Heap Witness WitnessF.
+From PF Require Import Opcodes RefTable Config Sim Ref Lex Envelope Oracles Check Entropy Mutators Gen ChaCha Front Heap Witness WitnessF.
 Extraction Language OCaml.
 Extraction "model.ml"
   all_opcodes op_name op_index op_eqb
@@ -24,5 +24,6 @@ Extraction "model.ml"
   contract_int contract_float contract_seq contract_memo contract_post
   applies_int applies_float applies_seq applies_memo int_boundaries long_boundaries
   heap_init heap_step has_cycle step_mut release
+  chacha8_word seeded_source
   witness_bytes occurs default_cfg driver_emitted flag_ok row
   cli_config default_min default_max default_rate default_samples py_new py_set_opcode_range action_run.
